@@ -112,12 +112,15 @@ def record(args):
         p = int(rng.integers(2, 4))
         # distinct values within every column: no zero-variance segment (the variance floor is not scale covariant)
         X = np.column_stack([rng.permutation(n) for _ in range(p)]) / 16.0
-        for _ in range(int(rng.integers(1, 3))):
+        # level shifts, a bump and a spike whose sizes have distinct dyadic fractional parts: all values within a
+        # column stay DISTINCT, so no window or segment of a detector has zero variance either
+        for j_ in range(int(rng.integers(1, 3))):
             k = int(rng.integers(2, n - 2))
-            X[k:] += rng.integers(-3, 4, size=p)
+            X[k:] += rng.integers(-3, 4, size=p) + 1.0 / (32 * (j_ + 1))
         s0 = int(rng.integers(2, n - 6))
-        X[s0:s0 + 3, int(rng.integers(0, p))] += 5.0
-        X[int(rng.integers(0, n)), int(rng.integers(0, p))] -= 7.0
+        X[s0:s0 + 3, int(rng.integers(0, p))] += 5.0 + 1.0 / 128
+        X[int(rng.integers(0, n)), int(rng.integers(0, p))] -= 7.0 + 1.0 / 256
+        assert all(len(set(X[:, j_])) == n for j_ in range(p))
         perm = [int(x) for x in rng.permutation(p)]
         while perm == list(range(p)):
             perm = [int(x) for x in rng.permutation(p)]
@@ -129,6 +132,28 @@ def record(args):
         for name, mk, arity, per_col, sh_inv, sc_inv in scorer_list(p):
             ms = 1 if "L2" in name or name == "CUSUM" else (p + 1 if "Cov" in name else 2)
             cuts = cuts_for(n, arity, ms, rng)
+            if "Cov" in name:
+                # (nearly) singular sample covariances are C01's special case (RuntimeError or some finite number, with
+                # rounding-dominated values): the symmetry relations are judged on well-conditioned slices only
+                def well_conditioned(cut):
+                    parts = [(cut[0], cut[-1])] + [(cut[i], cut[i + 1]) for i in range(len(cut) - 1)] if len(cut) > 2 else [(cut[0], cut[1])]
+                    for a_, b_ in parts:
+                        ev = np.linalg.eigvalsh(np.cov(X[a_:b_], rowvar=False, ddof=0).reshape(p, p))
+                        if ev[0] <= 1e-6 * max(ev[-1], 1e-12):
+                            return False
+                    return True
+
+                cuts = [c for c in cuts if well_conditioned(c)]
+            if "GaussianVar" in name:
+                # the variance floor (1e-16) is not scale covariant: segments with zero variance in some column are excluded,
+                # as the property's own wording does (pooled surroundings of a local anomaly score included)
+                def positive_variance(cut):
+                    parts = [X[cut[0]:cut[-1]]] + [X[cut[i]:cut[i + 1]] for i in range(len(cut) - 1)]
+                    if len(cut) == 4:
+                        parts.append(np.concatenate((X[cut[0]:cut[1]], X[cut[2]:cut[3]])))
+                    return all(np.all(np.var(part, axis=0) > 1e-9) for part in parts if len(part) >= 2)
+
+                cuts = [c for c in cuts if positive_variance(c)]
             if not cuts:
                 continue
             try:
@@ -216,7 +241,7 @@ def run(tier: str) -> int:
                 "Non-trivial = every pair (the transformation is never the identity); distinct record ids.")
     chk.assumptions = ["TLC/SANY and the Json module", "values are compared after quantisation with a tolerance of 16..64 units of "
                        "max|value| / 2^26", "detections are not judged when the two runs' scores agree up to rounding but the "
-                       "detections differ (a tie decided by rounding)", "scale covariance of the Gaussian costs: the logarithmic "
+                       "detections differ (a tie decided by rounding)", "covariance-based scorers are related on well-conditioned slices only (condition number below 1e6); scale covariance of the Gaussian costs: the logarithmic "
                        "terms cancel in change / local anomaly scores (pencil-and-paper step stated in CostsDefs.tla)"]
     with Workdir(PROP) as wd:
         for label, cs in [("N4-P1", cost_consts(MaxEvals=0)), ("N3-P2", cost_consts(N=3, P=2, MaxEvals=0))] + \
